@@ -8,10 +8,10 @@ From TarsV Require Import Gen.Consts Conc.Flush Conc.FlushProofs.
 Import ListNotations.
 Open Scope N_scope.
 
-(* every entry whose logging call returned before FlushLogger was called has been written when FlushLogger
+(* every entry whose logging call returned before FlushLogger was (first) called has been written when FlushLogger
    returns on the flusher's acknowledgement ... *)
 Theorem C20_flush_complete : forall cap l1 l2 l3 s,
-  run cap init (l1 ++ FlushCall :: l2 ++ FlushRet true :: l3) = Some s ->
+  run cap init (l1 ++ FlushCall :: l2 ++ FlushRet true :: l3) = Some s -> ~ In FlushCall l1 ->
   forall e, In e (rets_of l1) -> In e (writes_of (l1 ++ FlushCall :: l2)).
 Proof. exact FlushProofs.flush_complete. Qed.
 
@@ -51,14 +51,26 @@ Proof. exact FlushProofs.flusher_not_blocked_after_request. Qed.
    call had returned, however many entries other goroutines log meanwhile. (That these steps fit into FlushLogger's
    one second depends on the scheduler and the writers' speed: outside the model.) *)
 Theorem C20_flush_bounded : forall cap l1 l2 s1 s2 s,
-  run cap init l1 = Some s1 -> step cap s1 Request = Some s2 -> run cap s2 l2 = Some s ->
+  run cap init l1 = Some s1 -> req s1 = false -> step cap s1 Request = Some s2 -> run cap s2 l2 = Some s ->
   (length (q s1) + 1 <= flusher_steps l2)%nat ->
   forall e, In e (rets_of l1) -> In e (writes_of (l1 ++ Request :: l2)).
 Proof. exact FlushProofs.flush_bounded. Qed.
 
-(* FlushLogger is one-shot (known finding "second flush"): an entry logged after the acknowledged flush is never
-   written, whatever follows — the flusher goroutine has returned; FlushProofs.logged_after_ack_witness is a
-   concrete schedule *)
+(* FlushLogger is one-shot (known finding "second flush"). The model lets FlushLogger be called again, as the code
+   does; without "first call" the completeness statement is FALSE of the faithful model and of the code: *)
+Definition C20_flush_complete_any_call_statement : Prop := forall cap l1 l2 l3 s,
+  run cap init (l1 ++ FlushCall :: l2 ++ FlushRet true :: l3) = Some s ->
+  forall e, In e (rets_of l1) -> In e (writes_of (l1 ++ FlushCall :: l2)).
+Theorem C20_flush_complete_any_call_refuted : ~ C20_flush_complete_any_call_statement.
+Proof. exact FlushProofs.flush_complete_any_call_refuted. Qed.
+(* witness (vm_compute): log, flush, log e, flush again — the second call returns on the acknowledgement, e stays queued *)
+Theorem C20_second_flush_refuted :
+  exists cap l1 l2 l3 e s,
+    run cap init (l1 ++ FlushCall :: l2 ++ FlushRet true :: l3) = Some s /\ In e (rets_of l1) /\
+    ~ In e (writes_of (l1 ++ FlushCall :: l2 ++ FlushRet true :: l3)) /\ q s = [e] /\ fl s = FLReturned true.
+Proof. exact FlushProofs.second_flush_refuted. Qed.
+(* in general: an entry logged after the acknowledged flush is never written, whatever follows — the flusher goroutine
+   has returned *)
 Theorem C20_logged_after_ack_never_written : forall cap l1 l3 s,
   run cap init (l1 ++ FlushRet true :: l3) = Some s ->
   forall e, In e (calls_of l3) -> ~ In e (writes_of (l1 ++ FlushRet true :: l3)).
@@ -77,7 +89,7 @@ Proof. exact FlushProofs.tree_constants_in_range. Qed.
    called is written before the acknowledged return; each entry is written at most once and only after its call began;
    an entry whose call returned before another's call began is written first (hence per-goroutine order) *)
 Theorem C20_accepted_trace_complete : forall t1 t2 t3,
-  accepts (t1 ++ EFlushCall :: t2 ++ EFlushRet true :: t3) = true ->
+  accepts (t1 ++ EFlushCall :: t2 ++ EFlushRet true :: t3) = true -> ~ In EFlushCall t1 ->
   forall e, In (ERet e) t1 -> In (EWrite e) (t1 ++ EFlushCall :: t2).
 Proof. exact FlushProofs.accepts_complete. Qed.
 Theorem C20_accepted_trace_once : forall a e b,
@@ -103,3 +115,5 @@ Print Assumptions C20_flush_bounded.
 Print Assumptions C20_accepted_trace_complete.
 Print Assumptions C20_accepted_trace_once.
 Print Assumptions C20_accepted_trace_fifo.
+Print Assumptions C20_flush_complete_any_call_refuted.
+Print Assumptions C20_second_flush_refuted.
